@@ -5,7 +5,7 @@
     any history of such calls started in s.  Lemmas: Sem/Store.v, Sem/Needed.v; non-vacuity
     examples: C03/ProofsSem.v. *)
 From Coq Require Import List ZArith NArith Bool.
-From JrV Require Import Sem.Syntax Sem.Interp Sem.Store Sem.Needed.
+From JrV Require Import Sem.Syntax Sem.Interp Sem.Store Sem.Needed Sem.NeededLocals.
 Import ListNotations.
 
 (** 1. store extension *)
@@ -120,3 +120,30 @@ Theorem C03_sem_unused_local_never_runs_program :
     run fuel (ELocal [(x, e')] body) = run fuel (ELocal [(x, e)] body).
 Proof. exact unused_local_never_runs_program. Qed.
 Print Assumptions C03_sem_unused_local_never_runs_program.
+
+(** a `local` with several bindings: those with [keep i = false] may be bound to anything else,
+    provided their thunks are still waiting when the evaluation ends *)
+Theorem C03_sem_unused_locals_never_run :
+  forall (keep : nat -> bool) n ev oc bs bs' body s r s',
+    map fst bs' = map fst bs ->
+    (forall i, keep i = true -> nth_error bs' i = nth_error bs i) ->
+    eval (S n) ev oc (ELocal bs body) s = (r, s') ->
+    (forall i, i < length bs -> keep i = false ->
+               exists c, nth_error (cells s') (length (cells s) + i) = Some c /\ is_wait c = true) ->
+    exists s2', eval (S n) ev oc (ELocal bs' body) s = (r, s2') /\ log s2' = log s'.
+Proof. exact unused_locals_never_run. Qed.
+Print Assumptions C03_sem_unused_locals_never_run.
+
+(** an array literal and whatever is done with it afterwards ([k]: any interpreter function or
+    sequence of them): elements that are never read may be replaced by anything *)
+Theorem C03_sem_unread_elements_never_run :
+  forall (keep : nat -> bool) n ev oc es es' A (k : value -> M A) s r s',
+    (forall v, sem_fn A (k v)) ->
+    length es' = length es ->
+    (forall i, keep i = true -> nth_error es' i = nth_error es i) ->
+    (v <- eval (S n) ev oc (EArr es) ;; k v) s = (r, s') ->
+    (forall i, i < length es -> keep i = false ->
+               exists c, nth_error (cells s') (length (cells s) + i) = Some c /\ is_wait c = true) ->
+    exists s2', (v <- eval (S n) ev oc (EArr es') ;; k v) s = (r, s2') /\ log s2' = log s'.
+Proof. exact unread_elements_never_run. Qed.
+Print Assumptions C03_sem_unread_elements_never_run.
